@@ -38,10 +38,11 @@ Fixpoint g_node (s : sx) : node :=
   | SL [SI off; raw; SL kids; SI toff; traw] => Node off (g_raw raw) (map g_node kids) toff (g_raw traw)
   | _ => Node 0 dummy_raw [] 0 dummy_raw
   end.
-(* (off (size abbrev pid) die_off tree) *)
+(* (off (size abbrev pid (tsig)?) die_off tree) *)
 Definition g_unit (s : sx) : udesc :=
   let l := gL s in let h := gL (nthx 1 l) in
-  mk_ud (gI (nthx 0 l)) (mk_hdr (gI (nthx 0 h)) (gI (nthx 1 h)) (gI (nthx 2 h))) (gI (nthx 2 l)) (g_node (nthx 3 l)).
+  mk_ud (gI (nthx 0 l)) (mk_hdr (gI (nthx 0 h)) (gI (nthx 1 h)) (gI (nthx 2 h)) (g_optZ (nthx 3 h))) (gI (nthx 2 l))
+        (g_node (nthx 3 l)).
 Definition g_zz (s : sx) : Z * Z := (gI (nthx 0 (gL s)), gI (nthx 1 (gL s))).
 Definition g_kzz (s : sx) : Z * (Z * Z) := (gI (nthx 0 (gL s)), (gI (nthx 1 (gL s)), gI (nthx 2 (gL s)))).
 (* (off (end files pid eff) start (bodypid defs) bodyend) *)
@@ -60,12 +61,15 @@ Definition g_sym (s : sx) : sym_raw * Z :=
 Definition g_dyn (s : sx) : dyn_raw * Z :=
   let l := gL s in (mk_dyn (gbool (nthx 0 l)) (gI (nthx 1 l)) (g_pairs (nthx 2 l)), gI (nthx 3 l)).
 
+(* (off size sig pid die_off) *)
+Definition g_tu (s : sx) : Z * tu_raw * Z :=
+  let l := gL s in (gI (nthx 0 l), mk_tu (gI (nthx 1 l)) (gI (nthx 2 l)) (gI (nthx 3 l)), gI (nthx 4 l)).
 (* (kind cie table) *)
 Definition g_ent (s : sx) : Z * Z * Z := let l := gL s in (gI (nthx 0 l), gI (nthx 1 l), gI (nthx 2 l)).
 
 (* (info_size (units) abbrev_size (abbrevs) (lines) cfi ehcfi
     (stream_len shoff shnum shentsize shstr_base) (shdrs) (strs) (phoff phentsize) (phdrs)
-    (sym_base sym_entsize strtab_base) (syms) (dyn_base dyn_entsize) (dyns) (cfi entries) (eh cfi entries)) *)
+    (sym_base sym_entsize strtab_base) (syms) (dyn_base dyn_entsize) (dyns) (cfi entries) (eh cfi entries) types_size (type units)) *)
 Definition g_file (s : sx) : file :=
   let l := gL s in
   let e := gL (nthx 7 l) in let ph := gL (nthx 10 l) in let sy := gL (nthx 12 l) in let dy := gL (nthx 14 l) in
@@ -76,7 +80,8 @@ Definition g_file (s : sx) : file :=
           (gI (nthx 0 ph)) (gI (nthx 1 ph)) (map g_phdr (gL (nthx 11 l)))
           (gI (nthx 0 sy)) (gI (nthx 1 sy)) (gI (nthx 2 sy)) (map g_sym (gL (nthx 13 l)))
           (gI (nthx 0 dy)) (gI (nthx 1 dy)) (map g_dyn (gL (nthx 15 l)))
-          (map g_ent (gL (nthx 16 l))) (map g_ent (gL (nthx 17 l))).
+          (map g_ent (gL (nthx 16 l))) (map g_ent (gL (nthx 17 l)))
+          (gI (nthx 18 l)) (map g_tu (gL (nthx 19 l))).
 
 (* ---------------------------------------------------------------- operations *)
 Open Scope string_scope.
@@ -97,6 +102,8 @@ Definition g_op (s : sx) : op :=
   else if k =? "LineEntries" then LineEntries a
   else if k =? "CFI" then CFI (negb (a =? 0)%Z)
   else if k =? "CFIDecoded" then CFIDecoded (negb (a =? 0)%Z) b
+  else if k =? "TUBySig" then TUBySig a
+  else if k =? "NewIterTUs" then NewIterTUs na
   else if k =? "NewIterCUs" then NewIterCUs na
   else if k =? "NewIterDIEs" then NewIterDIEs na b
   else if k =? "NewIterChildren" then NewIterChildren na b c
@@ -172,6 +179,7 @@ Definition frame_sx (s : state) (f : frame) : sx :=
   match f with
   | FEmpty => SS "empty"
   | FCUs off => SL [SS "cus"; SI off]
+  | FTUs off => SL [SS "tus"; SI off]
   | FChildren c => SL [SS "children"; cframe_sx s c]
   | FSiblings self c => SL [SS "siblings"; die_name s self;
                             match c with Some c => cframe_sx s c | None => SS "none" end]
@@ -197,7 +205,8 @@ Definition state_sx (s : state) : sx :=
       SI (e_numtags s);
       sx_ints (cur s);
       SL (map (frame_sx s) (frames s));
-      held_sx (fst (cfis s)); held_sx (snd (cfis s))].
+      held_sx (fst (cfis s)); held_sx (snd (cfis s));
+      match tu_map s with Some m => sx_ints (map fst m) | None => SS "none" end].
 
 (* ---------------------------------------------------------------- running histories *)
 Record trace := mk_trace { t_state : state; t_afs : list aframe; t_n : nat;
